@@ -94,13 +94,15 @@ Proof. exact crash_safe_no_merge. Qed.
 Print Assumptions C03_crash_safe_no_merge.
 
 (* [img_ok] unfolded: the image reads as some directory [d] ([reads_as]: per file the records of [d]
-   plus possibly a torn tail, hinted files through their hint file only), and [d] opens to the map.
+   plus possibly a torn tail, hinted files through their hint file only), the hint files of [d]
+   describe their data files ([dir_hints_ok], part of [recovers_to]), and [d] opens to the map.
    What [reads_as] promises about the scanner is this: *)
-Theorem C03_reads_as_is_what_the_scanner_reads : forall img d, reads_as img d -> wf_dir d -> wf_hints d ->
+Theorem C03_reads_as_is_what_the_scanner_reads : forall img d, reads_as img d -> wf_dir d -> wf_hints d -> dir_hints_ok d ->
   forall id f, dir_get d id = Some f ->
     match d_hint f with
     | None => exists b, img (FData id) = Some b /\ scan dec_entry b = Some (layout 0 (d_data f))
-    | Some hs => exists b, img (FHint id) = Some b /\ scan dec_hint b = Some (hint_layout 0 hs)
+    | Some hs => (exists b, img (FHint id) = Some b /\ scan dec_hint b = Some (hint_layout 0 hs)) /\
+                 (exists bd, img (FData id) = Some bd /\ Forall (fun h => h_pos h + h_len h <= blen bd) hs)
     end.
 Proof. exact reads_scan. Qed.
 Print Assumptions C03_reads_as_is_what_the_scanner_reads.
